@@ -97,6 +97,9 @@ def gen_case(rng):
                         c["o"][n] = rng.choice([-1000.0, -9999.0])
         if st["has_elev"] and rng.random() < 0.5:
             inp["locs"][0][3] = -1200.0
+    # rows of one station that disagree on its latitude (verif warns and keeps the first): values must survive
+    if st["has_loc"] and st["latlon"] and rng.random() < 0.15:
+        st["conflict"] = {gen.fnum(l[0]): 0.5 for l in rng.sample(inp["locs"], 1)}
     inp["style"] = st
     ccls = rng.choice(["none", "text", "bare", "nospace"])
     return {"inp": inp, "comment_class": ccls, "sparse": sparse}
@@ -168,9 +171,10 @@ def run_case(case, ctx):
     # map verif's location index -> our location (by id if present, else by metadata)
     index = {}
     for e in eff:
+        cf = (st.get("conflict") or {}).get(gen.fnum(e[4])) if e[0] is not None else None
         match = [j for j, v in enumerate(vlocs)
-                 if (e[0] is None or float(v.id) == float(e[0])) and abs(v.lat - e[1]) < 1e-9 and abs(v.lon - e[2]) < 1e-9
-                 and abs(v.elev - e[3]) < 1e-9]
+                 if (e[0] is None or float(v.id) == float(e[0])) and (abs(v.lat - e[1]) < 1e-9 or (cf and abs(v.lat - e[1] - cf) < 1e-9))
+                 and abs(v.lon - e[2]) < 1e-9 and abs(v.elev - e[3]) < 1e-9]
         ctx.count("locations_compared")
         if len(match) != 1:
             ctx.violation("text-location-metadata", "location %s (id, lat, lon, elev as the file gives them) matches %d of the locations "
